@@ -10,8 +10,12 @@ package c20
 
 import (
 	"context"
+	"encoding/binary"
 	"errors"
 	"fmt"
+	"hash/fnv"
+	"os"
+	"runtime"
 	"sync/atomic"
 	"testing"
 	"testing/synctest"
@@ -284,6 +288,15 @@ func (r *pollerRig) actions() map[string]func(*rapid.T) {
 			c.Fp("reveal %d", s.revealed)
 			c.Label("seq:reveal-more-txs")
 		},
+		"seqReveal2": func(rt *rapid.T) {
+			n := len(s.pc)
+			if n == 0 || s.revealed >= s.pc[n-1].ntx() {
+				rt.Skip()
+			}
+			s.revealed++
+			c.Fp("reveal %d", s.revealed)
+			c.Label("seq:reveal-more-txs")
+		},
 		"seqExtend": func(rt *rapid.T) {
 			// the newest block gets more transactions than first generated
 			n := len(s.pc)
@@ -379,7 +392,9 @@ func (r *pollerRig) actions() map[string]func(*rapid.T) {
 				s.open(rt)
 				c.Label("head:revert-reorg")
 			}
-			r.exact = false
+			if os.Getenv("C20_STRICT_FRESHNESS") == "" { // probe switch: keep the exact-content oracle across reverts
+				r.exact = false
+			}
 			c.Fp("revert -> %d local=%v", w.head(), local)
 			m.headMoved()
 			m.verifyViews("after head revert")
@@ -401,21 +416,53 @@ func (m *machine) verifyViews(where string) {
 	}
 }
 
-// inBubble runs body inside a synctest bubble and carries rapid's control-flow panics
-// (failure, invalid data) back to the goroutine rapid runs the property on.
+// inBubble runs body inside a synctest bubble and carries rapid's control-flow panics (oracle
+// failure, invalid data) back to the goroutine rapid runs the property on. rapid's shrinker tells
+// failures apart by the traceback of the panic only; the re-panic therefore happens at a stack
+// depth derived from the original panic site (distinct sites -> distinct tracebacks), and
+// invalid-data panics (bit stream overrun while shrinking) go through a function of their own.
 func inBubble(t *testing.T, body func()) {
 	var pv any
+	var site uint32
 	synctest.Test(t, func(*testing.T) {
-		defer func() { pv = recover() }()
+		defer func() {
+			if pv = recover(); pv != nil {
+				var pcs [48]uintptr
+				n := runtime.Callers(2, pcs[:])
+				h := fnv.New32a()
+				for _, pc := range pcs[:n] {
+					var b [8]byte
+					binary.LittleEndian.PutUint64(b[:], uint64(pc))
+					_, _ = h.Write(b[:])
+				}
+				site = h.Sum32()
+			}
+		}()
 		body()
 	})
-	if pv != nil {
-		panic(pv)
+	if pv == nil {
+		return
 	}
+	if fmt.Sprintf("%T", pv) == "rapid.invalidData" {
+		rethrowInvalid(pv)
+	}
+	rethrow(pv, int(site%24))
+}
+
+//go:noinline
+func rethrowInvalid(pv any) { panic(pv) }
+
+//go:noinline
+func rethrow(pv any, depth int) {
+	if depth > 0 {
+		rethrow(pv, depth-1)
+		return
+	}
+	panic(pv)
 }
 
 func TestPropPoller(t *testing.T) {
-	stats.Check(t, stats.Budget{Quick: 100, Thorough: 1500},
+	stats.Check(t, stats.Budget{Quick: 100, Thorough: 800},
 		"the real preconfirmed.Poller (Run under testing/synctest, one ticker period per tick action) over a real Blockchain and a harness sequencer (DataSource) holding up to 5 pre-confirmed blocks: reveal more txs of the newest block (delta), extend it, open 1-3 new blocks (backfill), new round at the newest block or below it, head advance finalising the sequencer's blocks, head revert (node-local or sequencer reorg), not-at-tip phases, one-shot feeder faults (latest / by-number / class), NoChange with or without block number; readers take and keep views between ticks. Oracles: after a fault-free tick at the tip the stored chain equals what the sequencer shows (closed blocks carry all their class definitions); otherwise only realignment; plus all view oracles of the storage machine (shape, immutability fingerprint, lookups, overlay vs ref.State). Non-trivial = a non-empty view held across a later mutation of one of its slots or a head move",
 		func(rt *rapid.T, c *stats.Case) {
 			inBubble(t, func() {
@@ -438,6 +485,9 @@ func TestPropPoller(t *testing.T) {
 				defer func() { cancel(); <-done }()
 				synctest.Wait()
 				time.Sleep(pollInterval / 2) // from now on every Sleep(pollInterval) spans exactly one tick
+				if rapid.IntRange(0, 3).Draw(rt, "firstTick") > 0 {
+					r.tickF(rt, false)
+				}
 				rt.Repeat(r.actions())
 				m.finish()
 				for k, n := range r.seq.kinds {
